@@ -345,6 +345,7 @@ type LState struct {
 	yieldNRet    int // number of results the pending yield call must deliver on resume (MultRet: all)
 	mainLoop     func(*LState, *callFrame)
 	ctx          context.Context
+	ctxBase      context.Context // the context this thread's own one was derived from (nil: ctx was attached with SetContext)
 	ctxCancelFn  context.CancelFunc
 }
 
